@@ -16,6 +16,8 @@ func main() {
 	switch os.Args[1] {
 	case "store":
 		runStore(os.Args[2])
+	case "filter":
+		runFilter()
 	default:
 		fmt.Fprintln(os.Stderr, "unknown engine")
 		os.Exit(2)
